@@ -165,6 +165,13 @@ func genC08pMatchers() (string, error) {
 		units = append(units, u)
 		srcs = append(srcs, x.dir+"/{codec,matcher}.go")
 	}
+	// stream/xprotocol/factory.go ProtocolMatch: how the matcher's MatchResult becomes nil / EAGAIN / FAILED
+	xf, err := c08pXFactoryMap()
+	if err != nil {
+		return "", err
+	}
+	extra.WriteString(xf)
+	srcs = append(srcs, "pkg/stream/xprotocol/factory.go")
 	// HTTP/1 and HTTP/2 stream factories
 	h2c, err := pkgConsts("pkg/module/http2")
 	if err != nil {
@@ -286,4 +293,81 @@ func genC08pH2Parse() (string, error) {
 		fmt.Fprintf(&extra, "/-- pkg/module/http2 const %s -/\ndef h2p_%s : Int := %d\n", n, n, v)
 	}
 	return c08pModule("C08H2Parse", []string{"pkg/module/http2/frame.go"}, []*c08pUnit{u}, extra.String()), nil
+}
+
+// c08pXFactoryMap regenerates the result mapping of streamConnFactory.ProtocolMatch (closed shape):
+//   if f.matcher == nil { return stream.FAILED }; result := f.matcher(magic);
+//   switch result { case api.MatchX: return <nil | stream.EAGAIN | stream.FAILED> … }; return stream.FAILED
+func c08pXFactoryMap() (string, error) {
+	f, err := parse("pkg/stream/xprotocol/factory.go")
+	if err != nil {
+		return "", err
+	}
+	fd := findFunc(f, "streamConnFactory", "ProtocolMatch")
+	if fd == nil || len(fd.Body.List) != 4 {
+		return "", fmt.Errorf("xprotocol/factory.go: ProtocolMatch not found / not of the expected shape")
+	}
+	errOf := func(e ast.Expr) (string, bool) {
+		switch exprKey(e) {
+		case "nil":
+			return "Err.nil", true
+		case "stream.EAGAIN":
+			return "Err.again", true
+		case "stream.FAILED":
+			return "Err.failed", true
+		}
+		return "", false
+	}
+	mrOf := map[string]string{"api.MatchSuccess": "MR.success", "api.MatchAgain": "MR.again", "api.MatchFailed": "MR.failed"}
+	single := func(l []ast.Stmt) (string, bool) {
+		if len(l) != 1 {
+			return "", false
+		}
+		r, ok := l[0].(*ast.ReturnStmt)
+		if !ok || len(r.Results) != 1 {
+			return "", false
+		}
+		return errOf(r.Results[0])
+	}
+	ifs, ok := fd.Body.List[0].(*ast.IfStmt)
+	if !ok || c08fSrc(ifs.Cond) != "f.matcher == nil" || ifs.Else != nil {
+		return "", fmt.Errorf("xprotocol/factory.go ProtocolMatch: first statement is not `if f.matcher == nil`")
+	}
+	noM, ok := single(ifs.Body.List)
+	if !ok {
+		return "", fmt.Errorf("xprotocol/factory.go ProtocolMatch: nil-matcher branch")
+	}
+	if c08fSrc(fd.Body.List[1]) != "result := f.matcher(magic)" {
+		return "", fmt.Errorf("xprotocol/factory.go ProtocolMatch: second statement is not `result := f.matcher(magic)`")
+	}
+	sw, ok := fd.Body.List[2].(*ast.SwitchStmt)
+	if !ok || sw.Init != nil || exprKey(sw.Tag) != "result" {
+		return "", fmt.Errorf("xprotocol/factory.go ProtocolMatch: third statement is not `switch result`")
+	}
+	def, ok := single(fd.Body.List[3:])
+	if !ok {
+		return "", fmt.Errorf("xprotocol/factory.go ProtocolMatch: final return")
+	}
+	var b strings.Builder
+	b.WriteString("/-- pkg/stream/xprotocol/factory.go streamConnFactory.ProtocolMatch: the error a matcher's MatchResult is turned into -/\ndef xfactory_result (r : MR) : Err :=\n")
+	for _, st := range sw.Body.List {
+		cc := st.(*ast.CaseClause)
+		e, ok := single(cc.Body)
+		if !ok {
+			return "", fmt.Errorf("xprotocol/factory.go ProtocolMatch: a case is not a single return of nil / EAGAIN / FAILED")
+		}
+		if cc.List == nil {
+			def = e
+			continue
+		}
+		for _, v := range cc.List {
+			m, ok := mrOf[exprKey(v)]
+			if !ok {
+				return "", fmt.Errorf("xprotocol/factory.go ProtocolMatch: case value %s", exprKey(v))
+			}
+			fmt.Fprintf(&b, "  if r = %s then %s else\n", m, e)
+		}
+	}
+	fmt.Fprintf(&b, "  %s\n/-- … and what a codec without a matcher answers -/\ndef xfactory_noMatcher : Err := %s\n", def, noM)
+	return b.String(), nil
 }
